@@ -1397,7 +1397,6 @@ func (p *Prog) lockContext() *lockCtx {
 	return lc
 }
 
-
 // checkSelfDeadlock: sync.Mutex / RWMutex are not reentrant. A Lock() reached while the same mutex of the same object
 // is already held (exclusively or shared) by the goroutine blocks forever; an RLock() reached under the exclusive lock
 // does, too. Looked for inside one function and across one static call (the callee's lock calls, with the callee's
